@@ -1390,6 +1390,10 @@ SEQUENCE_ONLY = {"index", "count", "__reversed__"}
 # obj[key] on a *class* object makes CPython look up __class_getitem__ on it:
 # that is item access by key, performed by the interpreter.
 CPYTHON_SUBSCRIPT_READS = {"__class_getitem__"}
+# Standard-library modules that implement the hybrid shapes' own methods
+# (Enum.__hash__ reads self._name_, dataclass / namedtuple generated code ...):
+# reads from those frames are the object reading itself, like a drop's __getitem__.
+OWN_CLASS_FILES = ("/enum.py", "/dataclasses.py", "/collections/__init__.py", "/types.py", "<string>")
 KNOWN_LITERALS = {
     "force_liquid_default": "default-filter-reads-force_liquid_default",
     "gettext": "translations-provider-rebindable-by-template",
@@ -1470,6 +1474,8 @@ def check_logs(repo_liquid2: str) -> list[tuple[str, str]]:
             elif name not in PROTOCOL_LITERALS:
                 bad.append(("attribute-read-outside-protocol",
                             f"attribute {name!r} read at {where}: {here.strip()[:80]}"))
+        elif filename.endswith(OWN_CLASS_FILES):
+            continue          # the object's own class machinery (Enum.__hash__, dataclass / namedtuple methods)
         elif "/harness/" in filename and name == "__class__":
             continue          # isinstance(key, str) inside a harness drop's own __getitem__
         elif "/harness/" in filename:
